@@ -88,7 +88,7 @@ def make_setup(case):
         while sum(G.n_blocks(s, cfg["max_preconditioner_dim"], cfg["use_merge_dims"]) for s in shapes) < Gs:
             shapes.append([3])
     T = rnd.randint(5, 12)
-    pk, pres = G.rand_presence(rnd, len(shapes), T, kind=rnd.choice(["all", "never_one", "toggle", "random", "random", "bursts", "all_absent_steps"]))
+    pk, pres = G.rand_presence(rnd, len(shapes), T, kind=rnd.choice(["all", "never_one", "toggle", "random", "random", "bursts", "all_absent_steps", "rotate"]))
     groups = None
     force_groups = isinstance(case["seed"][-1], int) and case["seed"][-1] % 8 == 5
     if len(shapes) >= 2 and (rnd.random() < 0.25 or force_groups):
